@@ -1099,6 +1099,20 @@ def _digests_after(ctx: Ctx, cer: gw.Ceremony, signed: Psbt, tx: Tx, direct: Dig
             d5 = sig_hash.from_tx(cer.prevouts, tx, i, ht, precomputed)
         ctx.check(P09, "from-tx-equals-direct", d4 == want, lambda: f"input {i} ({spec.wallet.shape}) type {ht}: from_tx on the signed transaction {d4.hex()} != direct {want.hex()}", site=spec.wallet.kind)
         ctx.check(P09, "precomputed-equals-direct", d5 == want, lambda: f"input {i} type {ht}: from_tx with PrecomputedTxData {d5.hex()} != direct {want.hex()}", site="from_tx")
+        if is_tr and stack and ctx.ch.chance(1, 3, "from_tx.first-octet?"):
+            # what the path is read off is the witness: BIP341 takes the last element for an annex only where there are
+            # two or more, and a signature (or a placeholder where one will go) begins with any octet, 0x50 included --
+            # one signature in 256. The digest does not cover the witness, so the same digest is owed whatever the first
+            # octet of the one element is; with two or more elements a 0x50-led last one IS the annex and is left alone
+            lone = len(stack) == 1
+            first = ctx.ch.pick([0x50, 0x4F, 0x51, 0x00, 0xFF], "from_tx.first-octet")
+            other = deepcopy(tx)
+            if lone:
+                other.vin[i].script_witness = Witness([bytes([first]) + stack[0][1:]])
+                with ctx.must_succeed(P09, "direct-digest-computes", "from_tx/lone-element"):
+                    d6 = sig_hash.from_tx(cer.prevouts, other, i, ht)
+                ctx.check(P09, "from-tx-equals-direct", d6 == want, lambda: f"input {i} type {ht}: from_tx over a key-path witness whose one element begins with {first:#x}: {d6.hex()} != direct {want.hex()}", site="from_tx/lone-element")
+                ctx.probe(f"lone-witness-element-first-octet:{first:#x}")
     # a second reader of the finished work: a view over the combined psbt, as stored
     short = faulty and bool(ctx.ch.draw(2, "file.short?"))
     try:
